@@ -104,6 +104,15 @@ func (a *Allocation) AddPermission(perms *Permission) {
 
 	perms.allocation = a
 	a.permissionsLock.Lock()
+	select {
+	case <-a.closed:
+		// The allocation was torn down while the request was in flight: installing
+		// a permission now would leave it (and its timer) behind on a dead allocation.
+		a.permissionsLock.Unlock()
+
+		return
+	default:
+	}
 	a.permissions[fingerprint] = perms
 	// Arm the timer before the permission becomes visible to anybody else: Close() and
 	// a concurrent refresh dereference it, also while OnPermissionCreated is still running.
